@@ -116,6 +116,16 @@ def run(ctx):
             specs.append(flowcheck.prepare(dict(tag="C07/d%03d" % len(specs), certs=[cert], attempts=4,
                                                 endpoints={"A": {"ca": {"detail_style": [letter, nb]}, "script": [{"kind": kind, "nth": 1, "fault": "acme:unauthorized:403", "repeat": 10 ** 6}]}},
                                                 meta={"family": "long error text", "letter": letter, "bytes": nb, "kind": kind})))
+    # a failed attempt that took more than a minute of REAL time (a slow challenge hook): the pause is counted from its end
+    slow = []
+    for h in standard_hooks():
+        h = dict(h)
+        if h["name"] == "chall-http-01":
+            h = dict(h, args=h["args"][:2] + ["--sleep-ms", "61500"] + h["args"][2:])
+        slow.append(h)
+    specs.insert(0, flowcheck.prepare(dict(tag="C07/slow", certs=[simple_cert("slow1", ids=[{"dns": "slow.example.org", "challenge": "http-01"}])], attempts=2, hooks=slow, timeout=240,
+                                           endpoints={"A": {"script": [{"kind": "finalize", "nth": 1, "fault": "acme:unauthorized:403", "repeat": 1}]}},
+                                           meta={"family": "failed attempt longer than the pause", "real_seconds": 61.5})))
     specs += flowcheck.prestate_specs("C07")
     specs += hook_exit_specs(ctx.tier, ctx.seed)
     specs += fault_and_hook_specs(ctx.tier, ctx.seed, pos)
